@@ -164,6 +164,7 @@ func RunXport(t *testing.T, p *plan.Plan, keepLog int) *Result {
 					}
 				}
 				srv := peers.NewUpServer(s, w, p.Seed, us, xp.Tokens, pki)
+				srv.ReplayOnReuse = xp.Exhaust > 0
 				if err := srv.Start(); err != nil {
 					res.Note += "upstart:" + err.Error() + ";"
 				}
@@ -395,6 +396,7 @@ func runExhaust(h *XHistory, u upstream.Upstream) {
 					if rm, perr := dnsToRef(m); perr == nil {
 						if meta, ok := peers.DecodeMeta(rm); ok && meta.Token != c.Token {
 							s.Fail("C05", "foreign-reply-at-end-of-life", "exchange for %s on the exhausted connection returned the reply generated for %s", c.Token, meta.Token)
+							s.Fail("C04", "foreign-answer", "exchange for %s returned the answer the upstream generated for %s (token of the records' metadata): data produced for a different query", c.Token, meta.Token)
 						}
 						if rm.ID != c.ID {
 							s.Fail("C05", "caller-id", "exchange %s: returned id %d, caller id %d", c.Token, rm.ID, c.ID)
